@@ -6,6 +6,7 @@ use serde_json::Value;
 mod exec;
 mod ffi;
 mod gen;
+mod gen2;
 mod json;
 
 /// generated cases for this property (each a JSON object with "kind": "c19…")
